@@ -27,7 +27,7 @@ SPEC = dict(
                  "the wall clock is fixed during a case (expiry dynamics belong to C12)"],
     units=[
         pbt("c11_crash", ["harness/c11_crash.cpp", "harness/c11_fstrace.cpp", "harness/c12_clock.cpp", "harness/c12_nofsync.cpp"], dict(
-            kv_crash=P(8, 250, 12, 16, q_secs=50, t_secs=900),
+            kv_crash=P(5, 250, 16, 16, q_secs=50, t_secs=900),
             json_crash=P(16, 300, 4, 8, q_secs=40, t_secs=600),
         )),
     ],
